@@ -227,6 +227,16 @@ def ref_forms(run, repo, I, store):
     chk('HarmonicVib', 'UoRT', SumV(C(0), u_h), 'harmonic oscillator U/RT = sum x/2 + x/(e^x-1)')
     chk('HarmonicVib', 'SoR', SumV(C(0), s_h), 'harmonic oscillator S/R = sum x/(e^x-1) - ln(1-e^-x)')
     chk('HarmonicVib', 'CvoR', SumV(C(0), cv_h), 'harmonic oscillator Cv/R = sum x^2 e^x/(e^x-1)^2')
+    # partition function, with and without the zero-point factor: prod e^(-x/2)/(1-e^-x) resp. prod 1/(1-e^-x)
+    obj_h = store['HarmonicVib'][0]
+    oq, fq = repo.find_method(obj_h.ci, 'get_q')
+    for zpe, elem, txt in ((True, D.exp(-x / 2) / (1 - e), 'prod e^(-x/2)/(1-e^-x)'), (False, 1 / (1 - e), 'prod 1/(1-e^-x)')):
+        got_q = val(I, obj_h, 'get_q', {'T': T, 'include_ZPE': zpe})
+        want_q = _prod_atom(I, elem)
+        run.check(same(got_q, want_q), 'REF.harmonic oscillator q', 'HarmonicVib.get_q', 'textbook include_ZPE=%s' % zpe,
+                  'q_vib(include_ZPE=%s) = %s, expected %s = %s' % (zpe, show(got_q, 200), txt, show(want_q, 200)),
+                  oq.module, fq)
+        n_ref += 1
     # quasi-RRHO (Grimme): w*harmonic + (1-w)*free rotor
     # Grimme's weights: w = 1/(1 + (v0/nu)^alpha) (alpha = 4, the default) and the effective moment of inertia
     # mu' = mu*Bav/(mu + Bav) with mu = h/(8 pi^2 c nu)
@@ -535,6 +545,32 @@ def aggregation(run, repo):
                   'conditions addressed to this species (sp_kwargs) do not reach its modes, or another '
                   'species\' block does: %s' % show(got, 300), owner.module, fn)
         n += 1
+        # a mode that does not offer the quantity: an error by default; with raise_error=False it contributes the
+        # neutral element of the operation, announced by a warning unless raise_warning=False
+        for re_, rw_ in ((True, True), (False, True), (False, False)):
+            I = Interp(repo)
+            D = I.D
+            T, P = D.sym('T'), D.sym('P')
+            sp, modes = build(I, False, False)
+            del modes['rot_model'].opaque_methods[mname]
+            modes['rot_model'].missing.add(mname)
+            nwarn = len(I.warnings)
+            got = I.call_method(sp, mname, [], {'T': T, 'P': P, 'verbose': True, 'raise_error': re_,
+                                                'raise_warning': rw_})
+            key = 'mode without the quantity raise_error=%s raise_warning=%s' % (re_, rw_)
+            if re_:
+                ok = isinstance(got, Raised) and got.exc == 'AttributeError'
+                why = 'must raise AttributeError, got %s' % show(got, 120)
+            else:
+                exp = [ident if a == 'rot_model' else val(I, modes[a], mname, {'T': T, 'P': P}) for a in MODE_ATTRS]
+                ok = isinstance(got, ListV) and len(got) >= 5 and all(same(a, b) for a, b in zip(got.items[:5], exp)) \
+                    and (len(I.warnings) > nwarn) == rw_
+                why = 'must contribute %s for that mode and %s: got %s, %d warning(s)' % (
+                    show(ident), 'warn' if rw_ else 'stay silent', show(got, 200), len(I.warnings) - nwarn)
+            run.check(ok, 'AGG.missing-mode', 'StatMech.' + mname, key,
+                      'a mode that lacks %s with raise_error=%s, raise_warning=%s %s' % (mname, re_, rw_, why),
+                      owner.module, fn)
+            n += 1
     # species-level twins incl. entropy-of-elements bookkeeping
     for sel in (None, True):
         I = Interp(repo)
@@ -842,6 +878,8 @@ TR = 'pmutt/statmech/trans.py'
 SMI = 'pmutt/statmech/__init__.py'
 EL = 'pmutt/statmech/elec.py'
 MUTANTS = [
+    {'name': 'harmonic q with the full quantum instead of the zero-point half', 'expect': ('REF.harmonic oscillator q', 'HarmonicVib.get_q'),
+     'edits': [(V, '                np.exp(-vib_dimless / 2.) / (1. - np.exp(-vib_dimless)))', '                np.exp(-vib_dimless) / (1. - np.exp(-vib_dimless)))')]},
     {'name': 'collinearity test accepts only angles near 0', 'expect': ('BRANCH.collinear', 'get_geometry_from_atoms'),
      'edits': [(R_, '''            if not np.isclose(angle, 0., atol=degree_tol) \\
                and not np.isclose(angle, 180., atol=degree_tol):''',
